@@ -76,9 +76,9 @@ HIST_ASSUME = [
     "solving or writing a problem without any column is treated as out of scope (such histories are counted as inapplicable)",
     "a history is explored as a full tree without state merging: each item replays start + ops on a fresh object inside one QSexactStart..QSexactClear bracket",
 ]
-SW3 = hist("hist-sw3-san", "san", 3, weight=2, opts={"depth": 3, "reduced": 0, "sandwich": 1})   # solve ; any of the 66 operations ; solve
+SW3 = hist("hist-sw3-san", "san", 3, weight=2, opts={"depth": 3, "reduced": 0, "sandwich": 1})   # solve ; any of the 67 operations ; solve
 HIST_RULE = ("item = (start problem in {empty,1x1,testsuite3x2,ranged2x2,degenerate3x3,infeasible2x2,singleton3x3,mip3x2-read (integer markers, read from LP text)}, op_1..op_d; option sandwich: op_1 and op_d range over the 4 solve entry points only) over the operation alphabet of "
-             "harness/h_hist.c (66 concrete transitions; 'reduced' keeps the 24 that touch basis/cache/factorization); every item is executed on the real library "
+             "harness/h_hist.c (67 concrete transitions; 'reduced' keeps the 24 that touch basis/cache/factorization); every item is executed on the real library "
              "in lock-step with the model; non-trivial = every op of the history was applicable in the state it was issued in")
 
 PLANS["C05"] = {
@@ -550,7 +550,7 @@ _SW3P = hist("hist-sw3-prod", "prod", 3, weight=1, crash_props=["C17", "C01", "C
 for _pid in ("C01", "C02"):
     PLANS[_pid]["quick"] = PLANS[_pid]["quick"] + [_SW3P]
     PLANS[_pid]["thorough"] = PLANS[_pid]["thorough"] + [_SW3P, hist("hist-d3r-prod", "prod", 3, reduced=1, weight=2, crash_props=["C17", "C01", "C02"])]
-    PLANS[_pid]["rule"] = PLANS[_pid]["rule"] + "; family hist with sandwich=1: start problem ; solve ; any of the 66 operations ; solve - the certificate oracle is applied to the answers served after the last call (cached or re-solved)"
+    PLANS[_pid]["rule"] = PLANS[_pid]["rule"] + "; family hist with sandwich=1: start problem ; solve ; any of the 67 operations ; solve - the certificate oracle is applied to the answers served after the last call (cached or re-solved)"
     PLANS[_pid]["evidence"] = {"states": ["instances", "histories"], "transitions": ["executions", "api_transitions"], "nontrivial": ["instances_nontrivial", "histories"]}
 
 PLANS["C14"]["rule"] += ("; family hist: every write_basis step inside a history reads the file back and compares it with the basis mpq_QSget_basis reports (histories of depth 2, and solve ; any operation ; write_basis)")
@@ -560,7 +560,7 @@ for _pid in ("C08", "C09"):
     _h = hist("hist-d2-prod", "prod", 2, weight=1, crash_props=["C17", _pid])
     PLANS[_pid]["quick"] = PLANS[_pid]["quick"] + [_h]
     PLANS[_pid]["thorough"] = PLANS[_pid]["thorough"] + [_h, hist("hist-d3-prod", "prod", 3, weight=6, crash_props=["C17", _pid])]
-    PLANS[_pid]["rule"] += "; family hist: every write_prob step inside a history (depth 2 over the full alphabet of 66 operations from 10 start problems) is read back and compared with the edited model"
+    PLANS[_pid]["rule"] += "; family hist: every write_prob step inside a history (depth 2 over the full alphabet of 67 operations from 10 start problems) is read back and compared with the edited model"
     PLANS[_pid]["evidence"] = {"states": PLANS[_pid]["evidence"]["states"] + ["histories"], "transitions": PLANS[_pid]["evidence"]["transitions"] + ["api_transitions"], "nontrivial": PLANS[_pid]["evidence"]["nontrivial"] + ["roundtrips_in_histories"]}
 
 # ---------------------------------------------------------------- thorough tiers sized to their deadlines (16 cores; a run the deadline interrupts is reported as such)
@@ -643,7 +643,7 @@ _vg_more = [hist("inv-d1r-valgrind", "prod", 1, reduced=1, family="inv", weight=
             fam("meta-S0q1-d1-valgrind", "prodl1", "meta", {"fam": "S0q1", "depth": 1}, weight=2, range=[0, 30000], **_VG)]
 PLANS["C17"]["thorough"] = PLANS["C17"]["thorough"] + _vg_more
 
-# histories shaped by a pattern: S = one of the 4 solves, A = any of the 66 operations
+# histories shaped by a pattern: S = one of the 4 solves, A = any of the 67 operations
 _SAA = hist("hist-SAA-prod", "prod", 3, weight=2, opts={"depth": 3, "reduced": 0, "pat": "SAA"})
 _ASAS = hist("hist-ASAS-prod", "prod", 4, weight=8, opts={"depth": 4, "reduced": 0, "pat": "ASAS"})
 for _pid in ("C05", "C06"):
